@@ -79,9 +79,10 @@ def check(ctx):
                         "all generations of %s renumbered (slice_iter(0))" % first_field(a0), "compactify renumbers `%s`" % show(a0))
             ctx.require(lib.err_propagates(cp, c), "R-MUST", "compactify:propagates:" + (first_field(a0) or "?"), "error propagated", "compactify ignores an update_generations error")
     u = F.fn("stream_definition::Stream::update_generations")
-    up = Prov(u)
-    tc = u.calls_to("TraceHandler::update_generation")
-    if ctx.require(len(tc) == 1, "R-FLOW", "update_generations:anchor", "one update_generation call", "update_generations anchors changed"):
+    fam = lib.family_calls(F, u, "TraceHandler::update_generation")     # the loop body may live in a closure (iterator chain)
+    if ctx.require(len(fam) == 1, "R-FLOW", "update_generations:anchor", "one update_generation call", "update_generations anchors changed"):
+        _, tc0, up = fam[0]
+        tc = [tc0]
         g = up.operand(tc[0].args[2])
         adds = [s for s in walk(g) if s[0] == "call" and s[1].endswith("checked_add")]
         ok = len(adds) == 1 and adds[0][2][0][0] == "param" and adds[0][2][0][1] == "start_idx" and any(s[0] == "call" and s[1].endswith("Iterator::enumerate") for s in walk(adds[0][2][1])) \
